@@ -20,6 +20,13 @@ fn name_program(name: &str) -> String {
     )
 }
 
+fn name_line_program(name: &str) -> String {
+    format!(
+        "f0 = x => x\n{n} = 5\nf1 = y => y and true\n{n}1 = {n} + 1\nf2 = if {n} > 1 then 1 else 2\n{n}2 = 2\nf3 = z => z + 1 // note\n{n}3 = 3\n\nf4 = [1, 2] via w => w\n{n}4 = 4\nf5 = (k = 1)\n{n}5 = [{n}, {n}1, {n}2, {n}3, {n}4, f0({n}), f1(true), f3(1), f4]",
+        n = name
+    )
+}
+
 pub fn replay(case: &J) -> J {
     let mut mism = vec![];
     let mut evals = 0;
@@ -68,6 +75,14 @@ pub fn replay(case: &J) -> J {
             evals += 2;
             if reference.len() != 2 || got != exp {
                 mism.push(json!({"src": name_program(name), "name": name, "exp": exp, "obs": got}));
+            }
+            // the name as the first word of a line, after statements that end in every open-ended construct: a statement ends at
+            // the line break whatever the next line starts with
+            let run = |n: &str| { let s = Session::new(); let r = s.run(&name_line_program(n), true); r.iter().map(|o| describe(o, &s)).collect::<Vec<_>>() };
+            let (got2, exp2) = (run(name), run("zq"));
+            evals += 2;
+            if exp2.len() != 12 || got2 != exp2 {
+                mism.push(json!({"src": name_line_program(name), "name": name, "exp": exp2, "obs": got2}));
             }
         }
         k => panic!("c10 kind {k}"),
